@@ -63,7 +63,7 @@ try:
         variant = 'sched' if c in ('C07', 'C16') else 'base'
         b = build(variant)
         e = dict(env)
-        if c in ('C07', 'C14', 'C16', 'C17'):
+        if c in ('C07', 'C13', 'C14', 'C16', 'C17'):
             rb = build('race')
             if rb:
                 e['VH_RACE_BIN'] = rb
